@@ -8,6 +8,7 @@ package main
 import (
 	"bytes"
 	"context"
+	"crypto"
 	"crypto/ed25519"
 	"crypto/sha256"
 	"encoding/base64"
@@ -36,6 +37,17 @@ func (k *poolKey) Sign(_ context.Context, data []byte) ([]byte, error) {
 	}
 	return sshsig.Armor(sig), nil
 }
+
+// Verify and Public complete the dsse.SignerVerifier interface the experimental/gittuf API takes.
+func (k *poolKey) Verify(_ context.Context, data, sig []byte) error {
+	signature, err := sshsig.Unarmor(sig)
+	if err != nil {
+		return err
+	}
+	return sshsig.Verify(bytes.NewReader(data), signature, k.Signer.PublicKey(), sshsig.HashSHA512, "git")
+}
+
+func (k *poolKey) Public() crypto.PublicKey { return k.Signer.PublicKey() }
 
 var keyPool []*poolKey
 
